@@ -168,6 +168,14 @@ def compactSt (cfg : Cfg) (codec : Codec) (crc : Checksum) (bs : Nat) (now : Nat
       | some st0 =>
         (runOps cfg codec crc bs st0 (idx.map (fun p => Op.write ⟨opInsert, p.1, p.2⟩) ++ [.close]), .ok)
 
+/-- `CompactFromIndex(path, bs, swampName, index, …)` (the Load self-heal): the caller supplies the
+    name and the live index; a fresh V3 file under that name replaces the old one -/
+def compactFromIndexSt (cfg : Cfg) (codec : Codec) (crc : Checksum) (bs : Nat) (now : Nat) (name : Bytes) (idx : Index)
+    (st : St) : St × Reply :=
+  match createFileCfg cfg name now with
+  | none => (st, .rejHeader)
+  | some st0 => (runOps cfg codec crc bs st0 (idx.map (fun p => Op.write ⟨opInsert, p.1, p.2⟩) ++ [.close]), .ok)
+
 /-- entries still waiting in the write buffer -/
 def St.pending (st : St) : List Entry :=
   match st.sess with
